@@ -69,6 +69,15 @@ func (c17) Gen(rng *simrt.Rand, seed uint64, tier string) *Case {
 		parts = append(parts, t.sql())
 	}
 	pred := strings.Join(parts, " "+conn+" ")
+	if nterms == 3 && rng.Bool(0.3) {
+		// mixed connectives without parentheses: AND binds tighter than OR
+		conn = []string{"OR_AND", "AND_OR"}[rng.Intn(2)]
+		if conn == "OR_AND" {
+			pred = parts[0] + " OR " + parts[1] + " AND " + parts[2]
+		} else {
+			pred = parts[0] + " AND " + parts[1] + " OR " + parts[2]
+		}
+	}
 	c.X["terms"], c.X["conn"], c.X["ncols"] = terms, conn, ncols
 	// SELECT: aggregates over v (NULLs allowed) and, sometimes, the aggregates over w that the
 	// predicate uses (so that the predicate binds to a selected aggregate) — or not (trigger-only)
@@ -301,6 +310,12 @@ func (c17) Run(e *Env) {
 			} else {
 				fire = fire || v
 			}
+		}
+		switch e.C.xStr("conn") {
+		case "OR_AND": // a OR b AND c
+			fire = evalTerm(terms[0], running[g]) || (evalTerm(terms[1], running[g]) && evalTerm(terms[2], running[g]))
+		case "AND_OR": // a AND b OR c
+			fire = (evalTerm(terms[0], running[g]) && evalTerm(terms[1], running[g])) || evalTerm(terms[2], running[g])
 		}
 		if fire {
 			var ids []string
